@@ -46,8 +46,15 @@ def cases(tier):
                 if tier == 'quick' and (i * 2 + j + (kind == 'fragment')) % 7:
                     continue
                 out.append(dict(kind=kind, shape=shape, crc=(i + j) % 3, eid=(i + j) % 3, wide=wide))
+    # status reports: alone and next to extension blocks (as forwarded by a node that adds blocks); about a whole
+    # bundle and about a fragment (offset symbolic from 0)
     for crc in (0, 2):
-        out.append(dict(kind='admin', shape='payload', crc=crc, eid=1, wide='lifetime+P+st_time'))
+        for shape in ('payload', 'prev+hop', 'unknown'):
+            for subj in ('whole', 'fragment'):
+                if tier == 'quick' and shape != 'payload' and (crc == 0) != (subj == 'fragment'):
+                    continue
+                out.append(dict(kind='admin', shape=shape, crc=crc, eid=1, subj=subj,
+                                wide='lifetime+P+st_time' if subj == 'whole' else 'st_time+sfoff+slen'))
     return out
 
 
@@ -90,8 +97,12 @@ def build_inputs(c, case, tier):
         t1 = c.sym_int('st_time', 1, 2 ** 64 - 1 if 'st_time' in wset else 23)
         rec = [1, [[[True, t1], [False], [True, t1], [False]], 5,
                    rfc9171.eid_cbor(EIDS[0]), [p['create_ts'][0], 7]]]
+        sub = None
+        if case.get('subj') == 'fragment':
+            sub = [rng('sfoff', 2 ** 64 - 1), rng('slen', 2 ** 64 - 1)]
+            rec[1].extend(sub)
         data = rfc9171.enc(rec)
-        blocks.append(dict(type=1, num=1, flags=0, crc_type=case['crc'], data=data, kind='admin', rec=rec, t1=t1))
+        blocks.append(dict(type=1, num=1, flags=0, crc_type=case['crc'], data=data, kind='admin', rec=rec, t1=t1, sub=sub))
     else:
         n = c.sym_int('P', 0, 2 ** 32 if 'P' in wset else 23, size=True)
         blocks.append(dict(type=1, num=1, flags=0, crc_type=case['crc'], data=c.sym_blob('payload', n), kind='payload'))
@@ -119,9 +130,12 @@ def impl_bundle(p, blocks):
             cb = cb / HopCountBlock(limit=b['vals'][0], count=b['vals'][1])
         elif b['kind'] == 'admin':
             t1 = b['t1']
+            skw = dict()
+            if b['sub'] is not None:
+                skw = dict(fragment_offset=b['sub'][0], payload_len=b['sub'][1])
             sr = StatusReport(status=StatusInfoArray(received=StatusInfo(status=True, at=t1), forwarded=StatusInfo(status=False),
                                                      delivered=StatusInfo(status=True, at=t1), deleted=StatusInfo(status=False)),
-                              reason_code=5, subj_source=EIDS[0], subj_ts=Timestamp(dtntime=p['create_ts'][0], seqno=7))
+                              reason_code=5, subj_source=EIDS[0], subj_ts=Timestamp(dtntime=p['create_ts'][0], seqno=7), **skw)
             cb = cb / AdminRecord() / sr
         else:
             cb.setfieldval('btsd', b['data'])
@@ -160,7 +174,11 @@ def harness(case, tier):
                 'reader:block-header[%s]' % b['kind'], detail=dict(got=(rb['type'], rb['num'], rb['flags']), kind=b['kind']))
         c.prove(same_bytes(rb['data'], b['data']), 'reader:block-data[%s]' % b['kind'], detail=dict(got=rb['data'], want=b['data']))
     # (a) decode(encode(b)) == b and encode(decode(x)) == x
-    b2 = Bundle(octets)
+    try:
+        b2 = Bundle(octets)
+    except Exception as err:
+        c.prove(False, 'roundtrip:decoder-accepts-own-encoding', detail=repr(err))
+        return {'class': case['kind']}
     for name in ('bp_version', 'bundle_flags', 'crc_type', 'destination', 'source', 'report_to', 'lifetime'):
         v1, v2 = b1.primary.getfieldval(name), b2.primary.getfieldval(name)
         c.prove(eqv(v1, v2), 'roundtrip:primary[%s]' % name, detail=dict(a=v1, b=v2))
@@ -187,11 +205,22 @@ def harness(case, tier):
                 c.prove(eqv(sr.status.received.getfieldval('at'), b['t1']) and bool(sr.status.received.status) is True,
                         'roundtrip:status-time')
                 c.prove(sr.status.forwarded.getfieldval('at') is None, 'roundtrip:absent-status-time-stays-absent')
+                if b['sub'] is not None:
+                    fo, pl = sr.getfieldval('fragment_offset'), sr.getfieldval('payload_len')
+                    c.prove(fo is not None and pl is not None and eqv(fo, b['sub'][0]) and eqv(pl, b['sub'][1]),
+                            'roundtrip:status-subject-fragment-fields', detail=dict(offset=fo, length=pl))
+                else:
+                    c.prove(sr.getfieldval('fragment_offset') is None and sr.getfieldval('payload_len') is None,
+                            'roundtrip:status-subject-fragment-fields-absent')
     c.prove(same_bytes(rt.b_bytes(b2), octets), 'roundtrip:reencode-decoded-equals-original', detail=dict(again=rt.b_bytes(b2), orig=octets))
     # (b) the independent writer: same octets; implementation decodes and re-encodes them unchanged
     x = rfc9171.sealed_bundle(p, blocks)
     c.prove(same_bytes(x, octets), 'writers-agree', detail=dict(impl=octets, independent=x))
-    b3 = Bundle(x)
+    try:
+        b3 = Bundle(x)
+    except Exception as err:
+        c.prove(False, 'roundtrip:decoder-accepts-independent-encoding', detail=repr(err))
+        return {'class': case['kind']}
     c.prove(same_bytes(rt.b_bytes(b3), x), 'roundtrip:reencode-independent-encoding', detail=dict(again=rt.b_bytes(b3), orig=x))
     return {'class': case['kind'], 'size': blen(octets)}
 
